@@ -639,7 +639,7 @@ def domain_guard(chk, prog, refs=None):
     return n
 
 
-ALL = {"SUBCLASS-ARITH": lambda chk, prog, files: subclass_arith(chk, prog, files), "NAN-LITERAL": lambda chk, prog, files: nan_literal(chk, prog, files), "LATCH": lambda chk, prog, files: latch(chk, prog, files), "SIGNATURE": lambda chk, prog, files: signature(chk, prog, files), "SIGN-CANON": lambda chk, prog, files: sign_canon(chk, prog, files), "UNDEFINED-NAME": lambda chk, prog, files: possibly_undefined(chk, prog, files), "SELF-PURE": lambda chk, prog, files: self_pure(chk, prog, files), "STALE-DERIVED": lambda chk, prog, files: stale_derived(chk, prog, files), "CACHE-KEY": lambda chk, prog, files: cache_key(chk, prog, files), "NO-PARAM-WRITE": lambda chk, prog, files: no_param_write(chk, prog, files), "ZERO-AS-MISSING": lambda chk, prog, files: zero_as_missing(chk, prog, files), "POSE-DIV": lambda chk, prog, files: pose_div(chk, prog, files), "UNIT-GUARD": lambda chk, prog, files: unit_guard(chk, prog, files), "PARAM-DEAD": param_dead, "SWAPPED-ARGS": swapped_args, "METHOD-TRUTH": method_truth, "VIEW-SWAP": view_swap,
+ALL = {"PROCESS-STATE": lambda chk, prog, files: process_state(chk, prog, files), "SUBCLASS-ARITH": lambda chk, prog, files: subclass_arith(chk, prog, files), "NAN-LITERAL": lambda chk, prog, files: nan_literal(chk, prog, files), "LATCH": lambda chk, prog, files: latch(chk, prog, files), "SIGNATURE": lambda chk, prog, files: signature(chk, prog, files), "SIGN-CANON": lambda chk, prog, files: sign_canon(chk, prog, files), "UNDEFINED-NAME": lambda chk, prog, files: possibly_undefined(chk, prog, files), "SELF-PURE": lambda chk, prog, files: self_pure(chk, prog, files), "STALE-DERIVED": lambda chk, prog, files: stale_derived(chk, prog, files), "CACHE-KEY": lambda chk, prog, files: cache_key(chk, prog, files), "NO-PARAM-WRITE": lambda chk, prog, files: no_param_write(chk, prog, files), "ZERO-AS-MISSING": lambda chk, prog, files: zero_as_missing(chk, prog, files), "POSE-DIV": lambda chk, prog, files: pose_div(chk, prog, files), "UNIT-GUARD": lambda chk, prog, files: unit_guard(chk, prog, files), "PARAM-DEAD": param_dead, "SWAPPED-ARGS": swapped_args, "METHOD-TRUTH": method_truth, "VIEW-SWAP": view_swap,
        "MODULE-STATE": module_state, "SHADOW-REBIND": shadow_rebind, "CASE-MIXED": case_mixed, "INT-ALLOC": int_alloc}
 
 
@@ -663,6 +663,9 @@ class _LintFixture(_np.ndarray):
         return obj
     def is_ok(self):
         return self._nrm > 0
+    @cached_property
+    def vec2(self):
+        return self.mode * 2
     def latched(self, sample):
         if self.ref is None:
             self.ref = sample * 2
@@ -718,13 +721,22 @@ def _lint_fixture_alloc(p):
 def _lint_fixture_subclass(q):
     q = _np.asanyarray(q)
     return q * _np.array([1, -1, -1, -1])
+def _lint_fixture_rows(Q):
+    flips = _np.sign(_np.sum(Q[1:]*Q[:-1], axis=1))
+    Q[1:] *= flips[:, None]
+    return Q
+def _lint_fixture_process(x):
+    old = _np.seterr(all='raise')
+    y = 1.0 / x
+    _np.seterr(**old)
+    return y
 def _lint_fixture_nan(x):
     w = _np.full(3, _np.nan)
     return w * 0.0 + x
 '''
 FIXTURE_HOST = "ahrs/common/frames.py"
 # rule -> properties that own it (None = every property, on its anchor files)
-OWNERS = {"SUBCLASS-ARITH": None, "NAN-LITERAL": {"C02", "C03", "C04", "C05", "C07", "C12", "C13"}, "LATCH": None, "SIGNATURE": None, "SIGN-CANON": None, "UNDEFINED-NAME": None, "SELF-PURE": {"C01", "C02", "C07", "C09", "C10", "C11", "C12", "C18", "C20"}, "STALE-DERIVED": None, "CACHE-KEY": None, "NO-PARAM-WRITE": {"C01", "C02", "C03", "C04", "C06", "C07", "C09", "C10", "C12", "C13", "C18", "C20"}, "ZERO-AS-MISSING": None, "POSE-DIV": {"C03", "C04", "C05", "C13", "C02", "C07"}, "UNIT-GUARD": None, "PARAM-DEAD": None, "SWAPPED-ARGS": None, "METHOD-TRUTH": None, "VIEW-SWAP": None, "INT-ALLOC": None, "CASE-MIXED": None,
+OWNERS = {"PROCESS-STATE": None, "SUBCLASS-ARITH": None, "NAN-LITERAL": {"C02", "C03", "C04", "C05", "C07", "C12", "C13"}, "LATCH": None, "SIGNATURE": None, "SIGN-CANON": None, "UNDEFINED-NAME": None, "SELF-PURE": {"C01", "C02", "C07", "C09", "C10", "C11", "C12", "C18", "C20"}, "STALE-DERIVED": None, "CACHE-KEY": None, "NO-PARAM-WRITE": {"C01", "C02", "C03", "C04", "C06", "C07", "C09", "C10", "C12", "C13", "C18", "C20"}, "ZERO-AS-MISSING": None, "POSE-DIV": {"C03", "C04", "C05", "C13", "C02", "C07"}, "UNIT-GUARD": None, "PARAM-DEAD": None, "SWAPPED-ARGS": None, "METHOD-TRUTH": None, "VIEW-SWAP": None, "INT-ALLOC": None, "CASE-MIXED": None,
           "SHADOW-REBIND": None,
           # process-wide hidden state only contradicts properties that promise repeatability / isolation / history independence
           "MODULE-STATE": {"C06", "C15", "C19"}}
@@ -798,7 +810,7 @@ def self_test(chk, prog):
         signature(sink, p5, [FIXTURE_HOST])
     except Exception as e:
         chk.error("lint SIGNATURE crashed on its positive example: %s: %s" % (type(e).__name__, e))
-    for name in list(ALL) + ["SHADOW-REBIND.memo", "SHADOW-REBIND.derived"]:
+    for name in list(ALL) + ["SHADOW-REBIND.memo", "SHADOW-REBIND.derived", "CACHE-KEY.property", "SIGN-CANON.rows"]:
         fired = name in sink.rules
         chk.canary("lint %s fires on its embedded positive example" % name, fired, "" if fired else "no finding on the fixture")
 
@@ -1285,6 +1297,54 @@ def cache_key(chk, prog, files):
                 chk.finding("CACHE-KEY", f.module.rel, f.qname, "key self.%s = %s" % (attr, ast.unparse(key_expr)[:60]),
                             "the work skipped while `%s` is unchanged also depends on %s, which the remembered key (%s) does not contain: a call that changes only %s reuses stale results"
                             % (ast.unparse(cmp_)[:60], ", ".join("`%s`" % m for m in missing), ", ".join(sorted(key_params)), "/".join(missing)), line=cmp_.lineno)
+    # memoising decorators on methods: @cached_property / @lru_cache / @cache.  The cached value is keyed on nothing (cached_property) or on the explicit
+    # arguments only (lru_cache keeps `self` by identity); every attribute the method reads that some other method re-assigns is an input the cache ignores,
+    # unless every such method also drops the cached entry (self.__dict__.pop('<name>', None) / del self.<name>).
+    for rel in sorted(files):
+        m = prog.modules.get(rel)
+        if m is None:
+            continue
+        for c in m.classes.values():
+            for name, g in c.methods.items():
+                decs = [ast.unparse(d).split("(")[0].split(".")[-1] for d in g.node.decorator_list]
+                if not any(d in ("cached_property", "lru_cache", "cache") for d in decs):
+                    continue
+                n += 1
+                selfn = g.params[0] if g.params else "self"
+                # attributes read directly, through other properties/methods of the class (one level)
+                reads = set()
+                todo, seen_m = [g], set()
+                while todo:
+                    h = todo.pop()
+                    if h.qname in seen_m:
+                        continue
+                    seen_m.add(h.qname)
+                    hs = h.params[0] if h.params else "self"
+                    for x in ast.walk(h.node):
+                        if isinstance(x, ast.Attribute) and isinstance(x.value, ast.Name) and x.value.id == hs and isinstance(x.ctx, ast.Load):
+                            reads.add(x.attr)
+                            if x.attr in c.methods and len(seen_m) < 12:
+                                todo.append(c.methods[x.attr])
+                writers = {}
+                for h in c.methods.values():
+                    if h.name in ("__init__", "__new__") or h is g:
+                        continue
+                    hs = h.params[0] if h.params else "self"
+                    wrote = {x.attr for x in ast.walk(h.node) if isinstance(x, ast.Attribute) and isinstance(x.ctx, ast.Store) and isinstance(x.value, ast.Name) and x.value.id == hs}
+                    wrote |= {x.value.attr for x in ast.walk(h.node) if isinstance(x, ast.Subscript) and isinstance(x.ctx, ast.Store) and isinstance(x.value, ast.Attribute)
+                              and isinstance(x.value.value, ast.Name) and x.value.value.id == hs}
+                    hit = wrote & reads
+                    if not hit:
+                        continue
+                    txt = ast.unparse(h.node)
+                    drops = ("pop('%s'" % name) in txt or ('pop("%s"' % name) in txt or ("del %s.%s" % (hs, name)) in txt or ("cache_clear" in txt and "lru_cache" in decs)
+                    if not drops:
+                        writers[h.qname] = sorted(hit)
+                if writers:
+                    w0 = sorted(writers)[0]
+                    chk.finding("CACHE-KEY.property", rel, g.qname, "@%s on %s" % ([d for d in decs if d in ("cached_property", "lru_cache", "cache")][0], g.qname),
+                                "`%s` is memoised on the object, but it reads %s, which %s re-assigns without dropping the cached value: after that call the accessor keeps "
+                                "returning the value computed for the earlier state" % (g.qname, ", ".join("self." + a_ for a_ in writers[w0][:4]), w0), line=g.node.lineno)
     chk.counts["CACHE-KEY.keys"] = chk.counts.get("CACHE-KEY.keys", 0) + n
     return n
 
@@ -1551,6 +1611,34 @@ def subclass_arith(chk, prog, files):
                                 % ast.unparse(o)[:40], line=b.lineno)
                     break
     chk.counts["SUBCLASS-ARITH.conversions"] = chk.counts.get("SUBCLASS-ARITH.conversions", 0) + n
+    return n
+
+
+# ------------------------------------------------------------------------------------------------------------ PROCESS-STATE
+PROCESS_SETTERS = {"_np.seterr", "np.seterr", "numpy.seterr", "np.seterrcall", "numpy.seterrcall", "np.set_printoptions", "numpy.set_printoptions", "np.random.seed", "numpy.random.seed",
+                   "random.seed", "warnings.simplefilter", "warnings.filterwarnings", "sys.setrecursionlimit", "np.setbufsize", "numpy.setbufsize"}
+
+
+def process_state(chk, prog, files):
+    """A library function changes interpreter-wide or NumPy-wide settings (floating-point error handling, warning filters, the global random seed ...).  Unless the
+    previous setting is restored in a `finally` clause (or the change is made through a context manager, which is not one of these calls), an exception between the
+    change and the restore leaves the whole process in the changed state: every later call of any function then behaves differently from the first."""
+    n = 0
+    for f in _funcs(prog, files):
+        for x in _own_nodes(f.node):
+            if isinstance(x, ast.Call) and ast.unparse(x.func) in PROCESS_SETTERS:
+                n += 1
+                name = ast.unparse(x.func)
+                # accepted shape:  old = setter(...); try: ... finally: setter(**old)   -> the restoring call sits in a finalbody
+                restored = any(isinstance(t, ast.Try) and any(isinstance(y, ast.Call) and ast.unparse(y.func) == name for b in t.finalbody for y in ast.walk(b))
+                               for t in ast.walk(f.node))
+                in_final = any(isinstance(t, ast.Try) and any(y is x for b in t.finalbody for y in ast.walk(b)) for t in ast.walk(f.node))
+                if restored or in_final:
+                    continue
+                chk.finding("PROCESS-STATE", f.module.rel, f.qname, "%s" % ast.unparse(x)[:70],
+                            "`%s` changes a process-wide setting and no `finally` clause restores it: when anything between the change and the restore raises (a rejected input is "
+                            "enough) the setting stays changed for every later call in the process, which then raise or answer differently for the same arguments" % name, line=x.lineno)
+    chk.counts["PROCESS-STATE.calls"] = chk.counts.get("PROCESS-STATE.calls", 0) + n
     return n
 
 
